@@ -506,7 +506,8 @@ type Obs struct {
 	HdrTok      string
 	Calls       []*Call // origin calls made on the caller's goroutine (foreground)
 	BgCalls     []*Call // origin calls made by other goroutines, up to quiescence after the call
-	Ops         []Op    // store ops during the foreground call
+	Ops         []Op    // store ops of the exchange up to quiescence (foreground first)
+	FgOps       int     // how many of Ops happened before RoundTrip returned
 	Dur         time.Duration
 	ReqChanged  string // non-empty if the caller's request was modified
 	At          time.Time
@@ -576,7 +577,7 @@ func (w *W) Do(req *http.Request) *Obs {
 	}()
 	o.Dur = time.Since(o.At)
 	if w.Conn != nil {
-		o.Ops = w.Conn.OpsSince(c0)
+		o.FgOps = len(w.Conn.OpsSince(c0))
 	}
 	if after := reqFingerprint(req); after != before {
 		o.ReqChanged = fmt.Sprintf("before=%q after=%q", before, after)
@@ -605,6 +606,9 @@ func (w *W) Do(req *http.Request) *Obs {
 	}
 	if !w.NoWait {
 		synctest.Wait()
+	}
+	if w.Conn != nil {
+		o.Ops = w.Conn.OpsSince(c0) // includes background work up to quiescence; the first FgOps are the foreground's
 	}
 	me := Gid()
 	for _, c := range w.Origin.CallsSince(n0) {
